@@ -1,7 +1,7 @@
 SPECIFICATION Spec
 CONSTANTS
-  MaxH = 2
-  MaxRestarts = 2
+  MaxH = 1
+  MaxRestarts = 1
   FullNode = TRUE
   Cap = 2
   Weaken = "none"
@@ -15,5 +15,5 @@ PROPERTY NoRerun
 PROPERTY NoRerunCtl
 PROPERTY HeightMonotone
 PROPERTY HighestMonotone
-PROPERTY HistMonotone
+PROPERTY HistMonotoneExceptRerun
 VIEW view
